@@ -9,7 +9,8 @@
    mode is a bijection on strings of a given length for fixed parameters, the answer is right iff Spec(msg) = ct.
    TLC computes the expected ciphertext and tag from the data layer under the *exposed* iv/nonce and names the first clause
    that fails.  The verdict is total: every record gets "ok" or a clause. *)
-EXTENDS ClassicModes, Json, IOUtils
+EXTENDS Integers, Sequences, TLC, Json, IOUtils
+CM == INSTANCE ClassicModes          \* instantiated, not extended: the ASSUMEd vectors of the data layer are evaluated by ./check setup, not per run
 AE == INSTANCE AesAead
 CS == INSTANCE ChaChaSeek
 S20 == INSTANCE Salsa20
@@ -19,21 +20,23 @@ BlockModes == {"ecb", "cbc", "cfb", "ofb", "ctr", "openpgp", "eax"}
 NeedsCtx(e) == e.mode \in BlockModes /\ ~(e.mode = "eax" /\ e.cipher = "aes")
 \* <<ciphertext, tag>> the specifications define for e.msg when the iv / nonce / counter prefix is `iv`
 Spec(e, c, iv) ==
-  CASE e.mode = "ecb"     -> <<EcbEnc(c, e.msg), <<>>>>
-    [] e.mode = "cbc"     -> <<CbcEnc(c, iv, e.msg), <<>>>>
-    [] e.mode = "cfb"     -> <<CfbEnc(c, iv, e.seg, e.msg), <<>>>>
-    [] e.mode = "ofb"     -> <<OfbEnc(c, iv, e.msg), <<>>>>
-    [] e.mode = "ctr"     -> <<CtrEnc(c, iv, CtrField(e.ctr_init, e.ctr_le), e.ctr_suffix, e.ctr_le, e.msg), <<>>>>
-    [] e.mode = "openpgp" -> <<OpenPgpEnc(c, iv, e.msg), <<>>>>
-    [] e.mode = "eax"     -> IF e.cipher = "aes" THEN AE!EaxEncrypt(e.key, iv, FlattenSeq(e.aads), e.msg, e.maclen)
-                             ELSE EaxG(c, iv, FlattenSeq(e.aads), e.msg, e.maclen)
-    [] e.mode = "gcm"     -> AE!GcmEncrypt(e.key, iv, FlattenSeq(e.aads), e.msg, e.maclen)
-    [] e.mode = "ccm"     -> AE!CcmEncrypt(e.key, iv, FlattenSeq(e.aads), e.msg, e.maclen)
-    [] e.mode = "ocb"     -> AE!OcbEncrypt(e.key, iv, FlattenSeq(e.aads), e.msg, e.maclen)
+  CASE e.mode = "ecb"     -> <<CM!EcbEnc(c, e.msg), <<>>>>
+    [] e.mode = "cbc"     -> <<CM!CbcEnc(c, iv, e.msg), <<>>>>
+    [] e.mode = "cfb"     -> <<CM!CfbEnc(c, iv, e.seg, e.msg), <<>>>>
+    [] e.mode = "ofb"     -> <<CM!OfbEnc(c, iv, e.msg), <<>>>>
+    [] e.mode = "ctr"     -> <<CM!CtrEnc(c, iv, CM!CtrField(e.ctr_init, e.ctr_le), e.ctr_suffix, e.ctr_le, e.msg), <<>>>>
+    [] e.mode = "openpgp" -> <<CM!OpenPgpEnc(c, iv, e.msg), <<>>>>
+    [] e.mode = "eax"     -> IF e.cipher = "aes" THEN AE!EaxEncrypt(e.key, iv, CM!FlattenSeq(e.aads), e.msg, e.maclen)
+                             ELSE CM!EaxG(c, iv, CM!FlattenSeq(e.aads), e.msg, e.maclen)
+    [] e.mode = "gcm"     -> AE!GcmEncrypt(e.key, iv, CM!FlattenSeq(e.aads), e.msg, e.maclen)
+    [] e.mode = "ccm"     -> LET a == CM!FlattenSeq(e.aads) IN
+                             IF Len(a) < 4096 THEN AE!CcmEncrypt(e.key, iv, a, e.msg, e.maclen)
+                             ELSE CM!CcmG(CM!Ctx("aes", e.key, 0), iv, a, e.msg, e.maclen)          \* same standard, chunked CBC-MAC (6-byte length header)
+    [] e.mode = "ocb"     -> AE!OcbEncrypt(e.key, iv, CM!FlattenSeq(e.aads), e.msg, e.maclen)
     [] e.mode = "siv"     -> AE!SivEncrypt(e.key, e.aads \o (IF e.has_iv THEN <<iv>> ELSE <<>>), e.msg)      \* RFC 5297: the nonce is the last component before the plaintext
     [] e.mode = "kw"      -> <<AE!KwSeal(e.key, e.msg), <<>>>>
     [] e.mode = "kwp"     -> <<AE!KwpSeal(e.key, e.msg), <<>>>>
-    [] e.mode = "poly1305" -> CS!CP!AeadEncrypt(e.key, iv, FlattenSeq(e.aads), e.msg)
+    [] e.mode = "poly1305" -> CS!CP!AeadEncrypt(e.key, iv, CM!FlattenSeq(e.aads), e.msg)
     [] e.mode = "stream" /\ e.cipher = "chacha20" -> <<CS!ChaCha20At(e.key, iv, e.seek_block, e.seek_off, e.msg), <<>>>>
     [] e.mode = "stream" /\ e.cipher = "salsa20"  -> <<S20!Salsa20Encrypt(e.key, iv, e.msg), <<>>>>
     [] e.mode = "stream" /\ e.cipher = "arc4"     -> <<R4!Rc4(e.key, e.drop, e.msg), <<>>>>
@@ -42,6 +45,7 @@ Spec(e, c, iv) ==
 IvOf(e) == IF e.has_iv THEN e.iv ELSE e.iv_arg
 Verdict(e, c) ==
   IF e.out # "ok" THEN "raised " \o e.out \o " for valid parameters"
+  ELSE IF e.again_exc # "none" THEN "exposed nonce is refused when handed back explicitly: raised " \o e.again_exc
   ELSE LET exp == Spec(e, c, IvOf(e)) IN
   IF e.op = "dec" THEN (IF exp[1] = e.ct THEN "ok" ELSE "decryption of arbitrary data differs from the specification")
   ELSE IF exp[1] # e.ct THEN
@@ -61,7 +65,7 @@ TInit == t = 1 /\ kc = [id |-> <<"", <<>>, 0>>, c |-> 0]
 TNext == /\ t <= Len(Traces)
          /\ LET e == Traces[t]
                 id == <<e.cipher, e.key, e.ekb>>
-                c == IF ~NeedsCtx(e) THEN 0 ELSE IF kc.id = id THEN kc.c ELSE Ctx(e.cipher, e.key, e.ekb)
+                c == IF ~NeedsCtx(e) THEN 0 ELSE IF kc.id = id THEN kc.c ELSE CM!Ctx(e.cipher, e.key, e.ekb)
             IN /\ PrintT(<<"VERDICT", e.tid, 1, Verdict(e, c)>>)
                /\ kc' = IF NeedsCtx(e) THEN [id |-> id, c |-> c] ELSE kc
          /\ t' = t + 1
